@@ -82,7 +82,7 @@ static void sample_sched(G& g, SimConfig& c, bool multi) {
   if (k < 35) { c.strategy = ST_RANDOM; c.switch_p = g.pick({0.002, 0.01, 0.05, 0.2, 0.5}); }
   else if (k < 62) { c.strategy = ST_PCT; c.pct_depth = 1 + (int)g.below(3); c.pct_horizon = g.pick<uint64_t>({300, 2000, 10000, 50000}); }
   else if (k < 95) {
-    c.strategy = ST_TARGETED; c.hot_p = g.pick({0.15, 0.4, 0.8}); c.switch_p = g.pick({0.0, 0.0, 0.003});
+    c.strategy = ST_TARGETED; c.hot_p = g.pick({0.15, 0.4, 0.8}); c.switch_p = g.pick({0.0, 0.0, 0.003}); c.hold_steps = g.pick<uint64_t>({0, 0, 0, 100, 1000, 10000});
     size_t n = sizeof(HOT_FUNCS) / sizeof(HOT_FUNCS[0]);
     size_t want = 1 + g.below(6);
     for (size_t i = 0; i < want; i++) c.hot_funcs.push_back(HOT_FUNCS[g.below(n)]);
@@ -648,6 +648,53 @@ static void fam_c09_adopt_race(G& g, Plan& p) {
   P0.ops.push_back(mk(OP_census));
   for (int i = 0; i < n + extra; i++) P0.ops.push_back(mk(OP_free, i));
   P0.ops.push_back(mkh(OP_expect_empty_heap, -1, -1, 1));
+  P0.ops.push_back(mk(OP_giveback_check, -1, 4));
+}
+
+
+// a thread's forced collect (or its exit) visits abandoned segments, purges their free spans and puts them back, while another
+// thread reclaims exactly such a segment and allocates in those spans: the visit must be done with a segment before it is
+// visible to others again
+static void fam_c09_collect_race(G& g, Plan& p) {
+  if (g.chance(0.3)) set_env(p, "PURGE_DELAY", g.pick({1, 10, 100}));
+  if (g.chance(0.2)) set_env(p, "PURGE_DECOMMITS", 0);
+  if (g.chance(0.2)) set_env(p, "ABANDONED_RECLAIM_ON_FREE", 1);
+  if (g.chance(0.15)) set_env(p, "DISALLOW_ARENA_ALLOC", 1);
+  const int nleave = 1 + (int)g.below(3);
+  const int nt = 3 + nleave;          // 0 main, 1..nleave leavers, then collector, allocator
+  const int XI = 1 + nleave, YI = 2 + nleave;
+  p.nslots = 700; p.progs.resize((size_t)nt);
+  const size_t pg = (g.pick<size_t>({200, 400, 400, 700})) * KiB;
+  if (g.chance(0.85)) {
+    int k = (int)g.below(4);
+    if (k == 0) { p.cfg.strategy = ST_PCT; p.cfg.pct_depth = 1 + (int)g.below(3); p.cfg.pct_horizon = g.pick<uint64_t>({2000, 10000, 40000}); }
+    else { p.cfg.strategy = ST_TARGETED; p.cfg.hot_p = g.pick({0.5, 0.9}); p.cfg.switch_p = 0.0; p.cfg.harness_p = g.pick({0.0, 0.02});
+           p.cfg.hold_steps = g.pick<uint64_t>({0, 2000, 20000, 100000});     // the preempted thread stalls while the others run on
+           p.cfg.hot_funcs = (k == 1) ? std::vector<std::string>{"_mi_arena_segment_mark_abandoned", "os_call"} : std::vector<std::string>{"_mi_arena_segment_mark_abandoned", "_mi_arena_segment_clear_abandoned", "mi_arena_segment_os_mark_abandoned", "mi_arena_segment_os_clear_abandoned", "os_call"}; }
+  }
+  Program& P0 = p.progs[0]; Program& X = p.progs[(size_t)XI]; Program& Y = p.progs[(size_t)YI];
+  int holes = 0;
+  for (int t = 1; t <= nleave; t++) {
+    Program& L = p.progs[(size_t)t];
+    int n = 16 + (int)g.below(40);
+    for (int i = 0; i < n; i++) L.ops.push_back(mk(OP_malloc, (t - 1) * 60 + i, pg + g.below(64 * KiB)));
+    for (int i = 0; i < n; i++) if ((i % 2) == (int)g.below(2) || g.chance(0.2)) { L.ops.push_back(mk(OP_free, (t - 1) * 60 + i)); holes++; }     // free spans with a pending purge between live pages
+    L.explicit_done = g.chance(0.5);
+    P0.ops.push_back(mk(OP_spawn, t));
+  }
+  for (int t = 1; t <= nleave; t++) P0.ops.push_back(mk(OP_join, t));
+  if (g.chance(0.5)) P0.ops.push_back(mk(OP_advance, -1, g.pick<uint64_t>({1, 11, 101, 1001})));
+  P0.ops.push_back(mk(OP_spawn, XI)); P0.ops.push_back(mk(OP_spawn, YI));
+  int rounds = 3 + (int)g.below(8);
+  for (int r = 0; r < rounds; r++) { X.ops.push_back(mk(OP_collect, -1, 1)); if (g.chance(0.5)) X.ops.push_back(mk(OP_malloc, 600 + r, 64 + g.below(4000))); if (g.chance(0.3)) X.ops.push_back(mk(OP_advance, -1, g.pick<uint64_t>({1, 11, 101}))); }
+  X.explicit_done = g.chance(0.5);
+  int m = 70 + holes + (int)g.below(30); if (m > 380) m = 380;      // fills the allocator thread's own segment, then the holes of the abandoned ones
+  for (int i = 0; i < m; i++) { Y.ops.push_back(mk(OP_malloc, 200 + i, pg + g.below(64 * KiB))); if (g.chance(0.03)) Y.ops.push_back(mk(OP_free, 200 + (int)g.below((uint64_t)i + 1))); }
+  Y.ops.push_back(mk(OP_verify_all));
+  P0.ops.push_back(mk(OP_join, XI)); P0.ops.push_back(mk(OP_join, YI));
+  P0.ops.push_back(mk(OP_verify_all));
+  P0.ops.push_back(mk(OP_census));
+  P0.ops.push_back(mk(OP_free_all));
   P0.ops.push_back(mk(OP_giveback_check, -1, 4));
 }
 
@@ -1516,6 +1563,7 @@ static const FamilyDef FAMILIES[] = {
   {"c02_forceabandon", "C02", fam_c02_forceabandon, 0, true},
   {"c15_reclaim_route", "C15", fam_c15_reclaim_route, 0, true},
   {"c11_timed", "C11", fam_c11_timed, 0, false},
+  {"c09_collect_race", "C09", fam_c09_collect_race, 0, true},
   {"c15_arenas", "C15", fam_c15_arenas, 0, true},
   {"c17_misuse", "C17", fam_c17_misuse, 1, true},
   {"c03_align", "C03", fam_c03_align, 1, false},
